@@ -58,6 +58,13 @@ REPROS = [
      "setup": T3 + ["insert into t2 values (1,2,'a'),(NULL,NULL,'')"],
      "sql": "select (2 + 1) as c1, max(x1.b) as c3 from t2 as x1 group by (2 + 1) limit 3",
      "configs": ["mem.on"]},
+    {"id": "Q11", "properties": ["C02", "C01"],
+     "summary": "a scalar subquery with a WHERE clause is unnested into an aggregation grouped by all outer "
+                "columns, which merges duplicate outer rows: with t3 = {(0,1),(0,1),(2,1),(2,NULL)} the query "
+                "returns (0) once instead of twice",
+     "setup": T3 + ["insert into t3 values (2,NULL),(0,1),(2,1),(0,1)"],
+     "sql": "select x1.a from t3 as x1 where x1.b = (select max(x4.b) from t3 as x4 where x4.a is not null)",
+     "configs": ["mem.on"]},
 ]
 
 
